@@ -56,9 +56,11 @@ Proof. unfold np, palt. destruct p; congruence. Qed.
 
 Lemma np_ptag t s : np (ptag t s).
 Proof. unfold np, ptag. destruct (prefixb t s); discriminate. Qed.
-Lemma np_null s : np (null s). Proof. unfold null. apply np_pmap, np_ptag. Qed.
+Lemma np_pkeyword t s : np (pkeyword t s).
+Proof. unfold np, pkeyword, ptag. destruct (prefixb t s); [destruct (token_end _)|]; discriminate. Qed.
+Lemma np_null s : np (null s). Proof. unfold null. apply np_pmap, np_pkeyword. Qed.
 Lemma np_boolean s : np (boolean s).
-Proof. unfold boolean. apply np_palt; apply np_pmap, np_ptag. Qed.
+Proof. unfold boolean. apply np_palt; apply np_pmap, np_pkeyword. Qed.
 Lemma np_unsigned_int m s : np (unsigned_int m s).
 Proof. unfold np, unsigned_int. destruct (take_while _ s) as [ds r]. destruct ds; [discriminate|]. destruct (_ <=? m); discriminate. Qed.
 Lemma np_reference s : np (reference s).
@@ -175,13 +177,13 @@ Proof. unfold np, operator. destruct (take_while _ s) as [op r]. destruct op; di
 
 Lemma np_inline_image fuel s : np (inline_image fuel s).
 Proof.
-  unfold inline_image, np. destruct (ptag _ s) eqn:Et; try discriminate.
+  unfold inline_image, np. destruct (pkeyword _ s) eqn:Et; try discriminate; try (exfalso; exact (np_pkeyword _ _ Et)).
   destruct fuel as [|f]; [discriminate|].
   pose proof (np_inner_dictionary (direct_objects_at f (pred MAX_DEPTH)) (fun s' => np_direct_objects_at f _ s') f
                 (content_space rest) []) as Hd. unfold np in Hd.
   destruct (inner_dictionary _ _ _ _) as [d r1| | | |]; try discriminate; try congruence.
   destruct (ptag _ r1) as [u r2| | | |]; try discriminate.
-  pose proof (image_data_stream_np (content_space r2) d) as Hi.
+  pose proof (image_data_stream_np (id_sep r2) d) as Hi.
   destruct (image_data_stream _ _); try discriminate; try congruence.
   match goal with |- context [match ?x with _ => _ end] => destruct x end; discriminate.
 Qed.
